@@ -25,6 +25,10 @@ fn usage() -> i32 {
 
 fn main() {
     let args: Vec<String> = std::env::args().skip(1).collect();
+    if std::env::var_os("LLSIM_THOROUGH").is_some() {
+        // developer loop / digest: generate like the thorough tier
+        case::THOROUGH.store(true, std::sync::atomic::Ordering::Relaxed);
+    }
     exec::install_panic_hook();
     // free-running threads (Miri race detection) must not go through the scheduler hooks
     if args.first().map(String::as_str) != Some("mem-threads") {
